@@ -3,6 +3,7 @@ from engine import *
 import obligations
 import re
 import provenance
+import mutations
 
 CH = 'lightning::ln::channel::'
 FC = CH + 'FundedChannel::'
@@ -663,3 +664,4 @@ RULES = [
 RULES.append(('09.u', 'obligation-carrying values returned by workspace calls (to-fail HTLC lists, monitor updates, events, peer messages, claim packages) are never dropped on a path that does not examine them (rules/obligations.py)', lambda F: obligations.for_property(F, 'C09', '09.u')))
 RULES.append(('09.t', 'identity comparisons: every reviewed (function, identity type) == / != comparison (HTLCSource, Txid, OutPoint, ChannelId, PaymentHash, PublicKey, ...) is still made - a function does not silently change what it matches by (rules/provenance.py)', lambda F: provenance.ids_for_property(F, 'C09', '09.t')))
 RULES.append(('09.R', 'state resets: every reviewed constant write to persistent state (flag = true / false, counter = 0, pending slot = None) of a function is still made (rules/provenance.py)', lambda F: provenance.flags_for_property(F, 'C09', '09.R')))
+RULES.append(('09.M', 'collection mutations: every reviewed (function, stored collection, mutator class: add / remove / filter / empty / swap / order) triple is still present - an entry that is no longer removed, inserted or drained on one path (rules/mutations.py)', lambda F: mutations.for_property(F, 'C09', '09.M')))
